@@ -348,6 +348,9 @@ pub fn from_str<T: DeserializeOwned>(s: &str) -> Result<T> {
     }
     Ok(t)
 }
+pub fn to_vec<T: ?Sized + Serialize>(t: &T) -> Result<Vec<u8>> {
+    to_string(t).map(String::into_bytes)
+}
 pub fn from_slice<T: DeserializeOwned>(_: &[u8]) -> Result<T> {
     panic!("serde_json::from_slice is not modelled")
 }
